@@ -33,13 +33,14 @@
 (* number of lists closed first): closing a list at the very end of a      *)
 (* document is not observable and would only duplicate documents.          *)
 (***************************************************************************)
-EXTENDS Naturals, Sequences, FiniteSets, TLC, Json
+EXTENDS Naturals, Integers, Sequences, FiniteSets, TLC, Json
 
 CONSTANTS MaxActions,   \* bound on the number of builder actions
           MaxDepth,     \* bound on list nesting
           MaxFields,    \* bound on the number of fields
           Kinds,        \* field kinds enabled in this run (subset of DOMAIN KindTable)
-          Blocks,       \* enabled block actions, subset of {"para","list","lit","doctest","code","section"}
+          Blocks,       \* enabled block actions, subset of {"para","list","lit","doctest","code","section","version","poison"}
+          Hows,         \* histories by which the object gets the docstring, subset of {"direct", "assigned", "inherited"}
           Forms,        \* ways of writing a field enabled in this run, subset of {"plain", "cbullet", "cdef", "nsee"}
           FreeChoice    \* TRUE: inline style and verbatim template are free choices
                         \* FALSE: they rotate with the word counter (every one occurs, in varying contexts)
@@ -223,6 +224,36 @@ AddCode(up, v) ==
     /\ lists' = Pop(up) /\ last' = "verb"
     /\ UNCHANGED <<sect, nf, hosts, once>>
 
+\* ---- AddVersion: a versionadded / versionchanged / deprecated directive (reST; also inside google / numpy text)
+\*   var 1: explanation on the directive line (2 words)
+\*   var 2: explanation on the directive line (2 words), then, after a blank line, two more paragraphs (2 + 1 words)
+\*   var 3: no inline explanation, one body paragraph (2 words)
+VersionDirs == <<"versionadded", "versionchanged", "deprecated">>
+VersionWords == <<2, 5, 2>>
+AddVersion(up, var) ==
+    /\ "version" \in Blocks /\ last # "sealed"
+    /\ Step(VersionWords[var])
+    /\ doc' = Append(doc, [t |-> "version", reg |-> nf, lv |-> Depth - up, dir |-> VersionDirs[Rot(3)], var |-> var,
+                           w |-> WordsFrom(VersionWords[var])])
+    /\ lists' = Pop(up) /\ last' = "verb"
+    /\ UNCHANGED <<sect, nf, hosts, once>>
+
+\* ---- AddPoison: a block that parses but cannot be turned into HTML (epytext: a form feed between two words; reST:
+\*      ".. raw:: html" with HTML that is not XML).  to_stan() fails at render time and pydoctor falls back on showing the
+\*      docstring as plain text.  At most one per document, at the top level of the description - or of the body of an
+\*      ivar / cvar / var field of a class / module docstring, which IS the description of the documented variable (a
+\*      faulty body of any other field is shown as "Broken description" and reported: C08's subject).
+HasPoison == \E i \in 1..Len(doc) : doc[i].t = "poison"
+InAttrField == nf > 0 /\ hosts \subseteq {"class", "module"}
+               /\ \E i \in 1..Len(doc) : doc[i].t = "field" /\ doc[i].reg = nf /\ doc[i].kind \in {"ivar", "cvar", "var"}
+                                          /\ doc[i].form = "plain" /\ doc[i].iw = 0
+AddPoison ==
+    /\ "poison" \in Blocks /\ last # "sealed" /\ ~HasPoison /\ (nf = 0 \/ InAttrField)
+    /\ Step(2)
+    /\ doc' = Append(doc, [t |-> "poison", reg |-> nf, lv |-> 0, w |-> WordsFrom(2)])
+    /\ lists' = <<>> /\ last' = "verb"
+    /\ UNCHANGED <<sect, nf, hosts, once>>
+
 \* ---- OpenSection: description only, top level only (closes every list), levels nest properly
 OpenSection(level) ==
     /\ "section" \in Blocks /\ nf = 0 /\ level \in 1..2 /\ level <= sect + 1
@@ -261,6 +292,8 @@ Next == \/ \E up \in 0..Depth, st \in StyleChoice : AddPara(up, st) \/ AddItem(u
         \/ \E up \in 0..Depth : \/ \E v \in VarChoice("doctest") : AddDoctest(up, v)
                                  \/ \E c \in VarChoice("code") : AddCode(up, c)
         \/ \E level \in 1..2 : OpenSection(level)
+        \/ \E up \in 0..Depth, var \in 1..3 : AddVersion(up, var)
+        \/ AddPoison
         \/ \E kind \in Kinds : \E arg \in KindTable[kind].args : \E h \in HostChoice(kind) :
                \E form \in FormsOf(kind) \cap Forms :
                  \E st \in (IF form = "nsee" THEN SeeStyles ELSE IF kind \in TypeLike THEN {"word"} ELSE StyleChoice) :
@@ -271,7 +304,7 @@ Spec == Init /\ [][Next]_vars
 Host == IF "function" \in hosts THEN "function" ELSE IF "class" \in hosts THEN "class"
         ELSE IF "module" \in hosts THEN "module" ELSE IF "property" \in hosts THEN "property" ELSE "attribute"
 IsVerb(n) == n.t \in {"lit", "doctest", "code"}
-NodeWords(n) == IF n.t \in {"para", "head"} THEN n.w
+NodeWords(n) == IF n.t \in {"para", "head", "version", "poison"} THEN n.w
                 ELSE IF IsVerb(n) THEN [i \in 1..Markers(Templates[n.t][n.var]) |-> n.m]
                 ELSE <<>>
 \* visible word stream of one region, in source order
@@ -308,6 +341,21 @@ OracleSane == /\ NonDecreasing(AllWords)
 
 \* ------------------------------------------------------------------ emission (spec -> code)
 ASSUME PrintT(ToJson([templates |-> Templates]))
-Emit == nact > 0 => PrintT(ToJson([doc |-> doc, host |-> Host, nw |-> nw, text |-> Text(doc),
-                                   verbatim |-> Verbatim(doc), fields |-> Fields(doc)]))
+\* HISTORIES.  The same document reaches the rendered object in one of three ways; what must be shown does not change:
+\*   direct    : it is the object's own docstring
+\*   assigned  : the object (class, property, function) has some OTHER, stale docstring of its own - parsed while the AST
+\*               is built for classes and properties - and gets this one later through  X.__doc__ = "..."  : the words of
+\*               the FINAL docstring are shown, none of the stale one (fields that create attributes are only extracted
+\*               from the docstring present when the class is visited: not combined with this history)
+\*   inherited : it is the docstring of the method that the rendered method overrides; the rendered one has none
+ValidHow(hw) == \/ hw = "direct"
+                \/ hw = "assigned" /\ Host \in {"class", "property", "function"}
+                                   /\ \A k \in 1..Len(Fields(doc)) : Fields(doc)[k].where # "attribute"
+                \/ hw = "inherited" /\ Host = "function"
+\* where the render-time fault sits: -1 none, 0 the description, k the body of field k (then that field documents an attribute)
+FaultReg == IF HasPoison THEN (CHOOSE i \in 1..Len(doc) : doc[i].t = "poison") ELSE 0
+Fault == IF HasPoison THEN doc[FaultReg].reg ELSE -1
+Emit == nact > 0 => \A hw \in {x \in Hows : ValidHow(x)} :
+                      PrintT(ToJson([doc |-> doc, host |-> Host, how |-> hw, nw |-> nw, text |-> Text(doc), fault |-> Fault,
+                                     all |-> AllWords, verbatim |-> Verbatim(doc), fields |-> Fields(doc)]))
 =============================================================================
